@@ -25,7 +25,7 @@ package packet
 
 // Decision table of one iteration of the receive loop (oracle: the statement of C20).
 //@ func (*receiver).ReceivePackets$1
-//@   props C20 C12
+//@   props C20 C12 C16
 //@   observe ReadPacketData, ProcessPacketData, time.Sleep
 //@   loop 0 row cancel:        [ctxdone ; close errc] -> exit
 //@   loop 0 row frame_ok:      [call ReadPacketData() as (data, ci, err) ; call ProcessPacketData(_, data, ci) as (perr)] when err == nil && perr == nil -> continue
